@@ -34,14 +34,16 @@ type c12case struct {
 	Nested    bool        `json:"nested"`          // invoked from a nested directory
 	HasCache  bool        `json:"has_cache"`       // a .spok directory exists before
 	Links     [][2]string `json:"links,omitempty"` // symlinks: path relative to the project -> target
+	ViaLink   bool        `json:"via_link,omitempty"` // the project (and $HOME) is reached through a symlinked directory
+	LogicPWD  bool        `json:"logical_pwd,omitempty"` // $PWD holds the working directory as the user spelled it (what a shell does)
 }
 
 func (k c12case) key() string { b, _ := json.Marshal(k); return string(b) }
 
-var c12FilePool = []string{"a.txt", "gen.txt", "x.o", "y.o", "lib/z.o", "build/out.bin", "build/sub/deep.bin", "dist/", "keep/me.txt", "src/main.c", "src/gen/auto.c", ".hidden.o", "out/f", "nested/dir/", "notes.md", "bin/tool", "report[1].txt", "report1.txt", "out-v?.dat", "out-v1.dat"}
-var c12Literals = []string{"gen.txt", "build", "build/sub", "missing.out", "dist", "x.o", "bin/tool", "out", "src/gen", "report[1].txt", "out-v?.dat", "latest", "assets", "cur"}
+var c12FilePool = []string{"a.txt", "gen.txt", "x.o", "y.o", "lib/z.o", "build/out.bin", "build/sub/deep.bin", "dist/", "keep/me.txt", "src/main.c", "src/gen/auto.c", ".hidden.o", "out/f", "nested/dir/", "notes.md", "bin/tool", "report[1].txt", "report1.txt", "out-v?.dat", "out-v1.dat", "gen\\report.txt", "gen/report.txt", "zzabs_7f3a.out", "v1.0..v1.1.tar", "spok", "spokfil", "spokfile.bak", "s/"}
+var c12Literals = []string{"gen.txt", "build", "build/sub", "missing.out", "dist", "x.o", "bin/tool", "out", "src/gen", "report[1].txt", "out-v?.dat", "latest", "assets", "cur", "gen\\report.txt", "/zzabs_7f3a.out", "@HOME@/above.txt", "v1.0..v1.1.tar", "spok", "spokfil", "spokfile.bak", "s"}
 var c12LinkPool = [][2]string{{"latest", "keep/me.txt"}, {"assets", "../sibling"}, {"cur", "build"}, {"lib/link.o", "../x.o"}}
-var c12Globs = []string{"*.o", "**/*.o", "build/*", "nomatch/*.zzz", "*", "src/**/*.c", "*.{o,bin}", "**/*.bin", "lib/*"}
+var c12Globs = []string{"*.o", "**/*.o", "build/*", "nomatch/*.zzz", "*", "src/**/*.c", "*.{o,bin}", "**/*.bin", "lib/*", "*.tar"}
 var c12Dangerous = []string{"", ".", "..", "./", "build/..", "spokfile", "../proj", "./spokfile", "build/../..", "build/../", "./.", "src/./..", "@PROJ@", "@PROJ@/", "@PROJ@/spokfile", "@PROJ@/.."}
 var c12VarNames = []string{"OUT", "BIN_DIR", "DIST", "EMPTY", "GEN"}
 
@@ -70,10 +72,12 @@ func c12Gen(r *core.Rng) c12case {
 		}
 	}
 	k.CleanTask = r.Chance(15)
+	k.ViaLink = r.Chance(20)
+	k.LogicPWD = r.Chance(50)
 	k.HasCache = r.Chance(60)
 	nv := 0
 	n := r.Range(0, 5)
-	dangerous := r.Chance(30)
+	dangerous := r.Chance(30) || (k.ViaLink && r.Chance(40))
 	for i := 0; i < n; i++ {
 		switch r.Intn(3) {
 		case 0:
@@ -105,6 +109,7 @@ func c12Gen(r *core.Rng) c12case {
 
 func (k c12case) text(proj string) string {
 	var b strings.Builder
+	home := filepath.Dir(proj)
 	for _, o := range k.Outs {
 		if o.Kind == "var" {
 			if o.Join {
@@ -118,7 +123,7 @@ func (k c12case) text(proj string) string {
 	// spread the outputs over two tasks
 	var o1, o2 []string
 	for i, o := range k.Outs {
-		s := `"` + o.Text + `"`
+		s := `"` + strings.ReplaceAll(o.Text, "@HOME@", home) + `"`
 		if o.Kind == "var" {
 			s = o.Text
 		}
@@ -181,28 +186,43 @@ func c12Judge(c *core.Ctx, k c12case, res *core.ShardResult) (vs []core.Violatio
 		_ = os.MkdirAll(filepath.Dir(full), 0o755)
 		_ = os.Symlink(l[1], full)
 	}
-	text := k.text(proj)
+	// how the user spells the project: through a symlinked directory or directly
+	shome, sproj := home, proj
+	if k.ViaLink {
+		shome = filepath.Join(root, "s1", "s2", "lnk")
+		_ = os.Symlink("home", shome)
+		sproj = filepath.Join(shome, "proj")
+	}
+	canon := func(p string) string { // a spelled absolute path -> the real one
+		if k.ViaLink && isUnder(p, shome) && filepath.Clean(p) != shome { // the link itself stays what it is
+			return filepath.Join(home, strings.TrimPrefix(filepath.Clean(p), shome))
+		}
+		return filepath.Clean(p)
+	}
+	text := k.text(sproj)
 	_ = os.WriteFile(filepath.Join(proj, "spokfile"), []byte(text), 0o644)
 	if k.HasCache {
 		_ = core.WriteFiles(proj, map[string]string{".spok/cache.json": `{"build":"","other":""}`, ".spok/.gitignore": "*\n", ".spok/CACHEDIR.TAG": "Signature: 8a477f597d28d172789f06886806bc55"})
 	}
-	cwd := proj
+	cwd := sproj
 	if k.Nested {
-		cwd = filepath.Join(proj, "nested", "dir")
+		cwd = filepath.Join(sproj, "nested", "dir")
 	}
 	bad := func(clause, format string, args ...any) {
 		vs = append(vs, core.Violation{Property: "C12", Clause: clause, Key: k.key(), Detail: fmt.Sprintf(format, args...) + fmt.Sprintf("\nfiles %v nested=%v clean-task=%v\nspokfile:\n%s", k.Files, k.Nested, k.CleanTask, text)})
 	}
 
 	// the reference denotation of the declared outputs
+	linkDeclared := false
 	declared := map[string]bool{}    // paths that must be gone on success
 	allowedDirs := map[string]bool{} // glob-matched directories: may go (with everything below)
 	for _, o := range k.Outs {
 		switch o.Kind {
 		case "literal":
-			declared[filepath.Join(proj, o.Text)] = true
+			// a literal is relative to the spokfile's directory even when it starts with a slash
+			declared[filepath.Join(proj, strings.ReplaceAll(o.Text, "@HOME@", shome))] = true
 		case "var":
-			v := strings.ReplaceAll(o.Value, "@PROJ@", proj)
+			v := strings.ReplaceAll(o.Value, "@PROJ@", sproj)
 			switch {
 			case o.Join && !filepath.IsAbs(v):
 				// join() gives the absolute cleaned path against the working directory of the invocation
@@ -210,7 +230,13 @@ func c12Judge(c *core.Ctx, k c12case, res *core.ShardResult) (vs []core.Violatio
 			case !filepath.IsAbs(v):
 				v = filepath.Join(proj, v)
 			}
-			declared[filepath.Clean(v)] = true
+			if k.ViaLink && canon(v) == shome {
+				// the link through which the project is reached: removing it removes no directory, and
+				// it is "above the project" only in the user's spelling - both outcomes are accepted
+				linkDeclared = true
+				continue
+			}
+			declared[canon(v)] = true
 		case "glob":
 			for _, p := range ref.Denotation(proj, o.Text) {
 				declared[p] = true
@@ -248,13 +274,17 @@ func c12Judge(c *core.Ctx, k c12case, res *core.ShardResult) (vs []core.Violatio
 			var p string
 			switch o.Kind {
 			case "literal":
-				p = filepath.Join(proj, o.Text)
+				p = filepath.Join(proj, strings.ReplaceAll(o.Text, "@HOME@", shome))
 			case "var":
-				p = strings.ReplaceAll(o.Value, "@PROJ@", proj)
+				p = strings.ReplaceAll(o.Value, "@PROJ@", sproj)
 				if o.Join && !filepath.IsAbs(p) {
 					p = filepath.Join(cwd, p)
 				} else if !filepath.IsAbs(p) {
 					p = filepath.Join(proj, p)
+				}
+				p = canon(p)
+				if k.ViaLink && p == shome {
+					continue
 				}
 			default:
 				continue
@@ -267,11 +297,21 @@ func c12Judge(c *core.Ctx, k c12case, res *core.ShardResult) (vs []core.Violatio
 
 	before := core.Snap(root)
 	traceFile := filepath.Join(root, "strace.out")
-	inv := core.RunSpok(core.SpokOpts{Bin: c.SpokRace(), Dir: cwd, Home: home, Args: []string{"--clean"}, Prefix: core.StracePrefix(traceFile)})
+	var env []string
+	if k.LogicPWD {
+		env = []string{"PWD=" + cwd}
+	}
+	inv := core.RunSpok(core.SpokOpts{Bin: c.SpokRace(), Dir: cwd, Home: shome, Env: env, Args: []string{"--clean"}, Prefix: core.StracePrefix(traceFile)})
 	res.Evaluations++
 	events, terr := core.ParseStrace(traceFile, cwd)
 	if terr != nil {
 		core.Fatal("strace produced no trace: %v; stderr of the invocation: %s", terr, core.Trunc(inv.Stderr, 500))
+	}
+	for i := range events {
+		events[i].Path = canon(events[i].Path)
+	}
+	if k.ViaLink {
+		res.Count("cases_reached_through_a_symlinked_directory", 1)
 	}
 	_ = os.Remove(traceFile)
 	delete(before, "strace.out")
@@ -317,7 +357,7 @@ func c12Judge(c *core.Ctx, k c12case, res *core.ShardResult) (vs []core.Violatio
 		}
 		for _, p := range append(append([]string{}, diff.Added...), diff.Modified...) {
 			a := absOf(p)
-			if a == filepath.Join(cwd, "cleaned.marker") || isUnder(a, filepath.Join(proj, ".spok")) {
+			if a == canon(filepath.Join(cwd, "cleaned.marker")) || isUnder(a, filepath.Join(proj, ".spok")) {
 				continue
 			}
 			bad("clean-task-runs-instead", "unexpected change at %s while running the clean task", p)
@@ -327,7 +367,7 @@ func c12Judge(c *core.Ctx, k c12case, res *core.ShardResult) (vs []core.Violatio
 			bad("clean-task-runs-instead", "running the clean task failed: %s", core.Trunc(inv.Stderr, 300))
 			return
 		}
-		if _, err := os.Stat(filepath.Join(cwd, "cleaned.marker")); err != nil {
+		if _, err := os.Stat(filepath.Join(cwd, "cleaned.marker")); err != nil { // through the link is fine
 			bad("clean-task-runs-instead", "the clean task's command did not run")
 			return
 		}
@@ -339,7 +379,7 @@ func c12Judge(c *core.Ctx, k c12case, res *core.ShardResult) (vs []core.Violatio
 	// the cache directory, and anything below a removed directory
 	allowedRoot := func(p string) bool {
 		p = filepath.Clean(p)
-		if isUnder(p, filepath.Join(proj, ".spok")) {
+		if isUnder(p, filepath.Join(proj, ".spok")) || (linkDeclared && p == shome) {
 			return true
 		}
 		for d := range declared {
@@ -383,7 +423,7 @@ func c12Judge(c *core.Ctx, k c12case, res *core.ShardResult) (vs []core.Violatio
 		}
 	}
 	if inv.Exit != 0 {
-		if !forbiddenDeclared {
+		if !forbiddenDeclared && !linkDeclared {
 			bad("clean-succeeds", "--clean failed (exit %d) although no output designates the spokfile, its directory or anything above: %s", inv.Exit, core.Trunc(inv.Stderr, 300))
 			return
 		}
@@ -443,7 +483,7 @@ func c12Run(c *core.Ctx) bool {
 	cov := map[string]any{
 		"evaluations":         total.Evaluations,
 		"distinct_nontrivial": distinct,
-		"rule":                "random project trees (files inside and outside declared outputs, nested directories, pre-existing and missing outputs, a sibling directory and files above the project, symlinks to a file, to a directory inside and to a directory outside the project, file names containing '[' and '?', with/without an existing cache) x spokfiles declaring 0-5 outputs: literal files/directories, variables (relative, or absolute via join), globs (matching files, directories, nothing, '*' which matches the spokfile) and in 30% of the cases dangerous values ('', '.', '..', './', 'build/..', 'spokfile', '../proj', ...); with/without a task named clean; invoked from the project root or a nested directory. Race-built binary under strace -f; monitors: full before/after snapshot (path, type, mode, sha256) of the whole sandbox and every successful unlink/rmdir/rename/open-for-write/truncate/chmod/mkdir resolved to an absolute path. evaluations = traced invocations; non-trivial = distinct cases with >=1 designated output (or a refusal, or a clean task) that passed every clause",
+		"rule":                "random project trees (files inside and outside declared outputs, nested directories, pre-existing and missing outputs, a sibling directory and files above the project, symlinks to a file, to a directory inside and to a directory outside the project, file names containing '[', '?', a backslash and '..', with/without an existing cache; in 20% of the cases the project and $HOME are reached through a symlinked directory) x spokfiles declaring 0-5 outputs: literal files/directories (also spelled with a leading slash or as an absolute path of a file beside the project: still relative to the spokfile), variables (relative, or absolute via join), globs (matching files, directories, nothing, '*' which matches the spokfile) and in 30% of the cases dangerous values ('', '.', '..', './', 'build/..', 'spokfile', '../proj', ...); with/without a task named clean; invoked from the project root or a nested directory. Race-built binary under strace -f; monitors: full before/after snapshot (path, type, mode, sha256) of the whole sandbox and every successful unlink/rmdir/rename/open-for-write/truncate/chmod/mkdir resolved to an absolute path. evaluations = traced invocations; non-trivial = distinct cases with >=1 designated output (or a refusal, or a clean task) that passed every clause",
 		"samples":             total.Samples,
 		"counters":            total.Counters,
 		"exhaustive":          false,
